@@ -141,6 +141,25 @@ func ReturnedValues(call *ssa.Call, idx int) ([]ssa.Value, *ssa.Function) {
 			out = append(out, res[idx])
 		}
 	})
+	// a runner hands back what its callback returns (inMailbox(s, name, mode, func(mb) T {…})):
+	// with the callback known at this call, the values are the callback's own
+	if pi := RunnerParam(g); pi >= 0 && pi < len(call.Call.Args) {
+		if h, _, ok := FuncValueOf(call.Call.Args[pi]); ok && h != nil && len(h.Blocks) > 0 && InModule(h) {
+			var hv []ssa.Value
+			EachInstr(h, func(in ssa.Instruction) {
+				ret, ok := in.(*ssa.Return)
+				if !ok || in.Parent() != h || (IsRecoverBlock(ret.Block()) && !DefersMayRecover(h)) {
+					return
+				}
+				if res := ReturnResults(ret); idx < len(res) {
+					hv = append(hv, res[idx])
+				}
+			})
+			if len(hv) > 0 {
+				return hv, h
+			}
+		}
+	}
 	return out, g
 }
 
